@@ -102,7 +102,7 @@ check("C19",
       "Trusted: TLC; the regex engine, urlparse and the title regexes are not modelled (regex = one literal word; only the frame relation is decided for split_url_events / simplify_string).",
       "TLA+ relational spec + TLC model checking of the algorithm transcription + TLC validation of recorded I/O", "DESIGN.md §6 C19")
 check("C11",
-      "spec/AwQuery.tla defines the abstract syntax, its text in three spacing styles (Show) and its meaning (Run: value flow through literals, variables, lists, dicts and arguments, and the log of "
+      "spec/AwQuery.tla defines the abstract syntax, its text in four spacing styles (Show) and its meaning (Run: value flow through literals, variables, lists, dicts and arguments, and the log of "
       "built-in applications in evaluation order with their argument values; nop/concat/limit_events on call-free values are computed). TLC enumerates well-formed programs from the grammar "
       "(AwQueryGen), the harness runs each text through aw_query.query with every registered built-in wrapped by a recorder, and TLC judges result and application log of every execution against Run "
       "(ExecClause) and across spacing styles.",
